@@ -443,6 +443,9 @@ func sigDiff(a, b c10Sig) string {
 }
 
 func c10Run(c *Case) {
+	if c.Idx == 0 {
+		round8C10(c)
+	}
 	rng := c.Rng
 	pc := c10Pool(rng)
 	if len(pc.prog) > 60000 {
